@@ -75,7 +75,7 @@ CHECKS = {
                 nontrivial_rule="a history counts if an acknowledging frame was judged at emission; distinct by history hash.",
                 level_text="Fault enumeration by runtime monitoring: one crash point per outbound frame of every executed history, decided by an oracle "
                            "running inside the send hook of the real server; sampled crash images confirm the reader-based verdicts on real file bytes.",
-                budget={"quick": 75, "thorough": 900},
+                budget={"quick": 180, "thorough": 1200},
                 floors={"quick": {"c09_no_txn_at_frame": 60000, "c09_emit_message": 1000, "c09_emit_claimed": 1000, "c09_emit_released": 500,
                                   "c09_emit_closed": 500, "c09_emit_allocated": 200, "c09_crash_image_checked": 1000, "c09_pragmas": 2000,
                                   "c09_wire_history": 16, "c09_syscall_tcp_writes_checked": 2000, "c09_syscall_commits_checked": 500}}),
@@ -98,7 +98,7 @@ CHECKS = {
                 level_text="Fault enumeration by runtime monitoring: every commit boundary of every executed command and sweep is a crash point; each distinct "
                            "on-disk state is restarted on the real code under both continuations.",
                 technique="runtime crash injection: file images at every commit boundary of the real server, restarted and judged by oracles + differential continuation",
-                budget={"quick": 60, "thorough": 1200},
+                budget={"quick": 180, "thorough": 1500},
                 floors={"quick": {"c10_crash_point": 5000, "c10_distinct_image": 1500, "c10_nobody_returns": 1500, "c10_clients_resume": 300,
                                   "c10_resume_claim": 50, "c10_resume_release": 30, "c10_resume_open": 50, "c10_resume_close": 30,
                                   "c10_others_return": 150}}),
@@ -162,7 +162,7 @@ CHECKS = {
                 level_text="Fault enumeration: the event spaces (statements, audited fs calls, authorizer requests, source lines; syscalls in the thorough tier) "
                            "of the real creation code are enumerated completely and every point is injected once on the real code and real files.",
                 technique="runtime fault injection on the real code: kill/exception at every enumerated event, oracle over the files left behind",
-                budget={"quick": 90, "thorough": 900},
+                budget={"quick": 180, "thorough": 1200},
                 floors={"quick": {"c19_crash_point": 300, "c19_die-stmt": 30, "c19_die-fs": 10, "c19_raise-fs": 8, "c19_raise-auth": 40,
                                   "c19_raise-line": 30, "c19_strace": 20, "c19_existing_file": 150,
                                   "c19_sibling_file_checked": 200}}),
@@ -175,7 +175,7 @@ CHECKS = {
                 nontrivial_rule="one case per (injection kind, input, event index) that actually interrupted the upgrade, plus one per uninterrupted input; all non-trivial.",
                 level_text="Fault enumeration: the event spaces of the real upgrade path are enumerated completely per input and every point is injected once on the real code and real files.",
                 technique="runtime fault injection on the real code: kill/exception at every enumerated event of the upgrade, oracle over rows, schema and backup bytes",
-                budget={"quick": 90, "thorough": 900},
+                budget={"quick": 180, "thorough": 1200},
                 floors={"quick": {"c20_crash_point": 150, "c20_die-stmt": 15, "c20_die-fs": 10, "c20_raise-fs": 8, "c20_raise-auth": 20,
                                   "c20_strace": 20, "c20_uninterrupted": 60, "c20_backup_checked": 150}}),
 }
